@@ -1,6 +1,8 @@
 import Cpl.Spec.Ring
+import Cpl.Model.DynS
 import Cpl.Lemmas.Evolve1D
 import Cpl.Lemmas.Dyn2D
+import Cpl.Lemmas.DynS
 
 /-!
 # C06 — callable timesteps gate every step; until_fixed_point halts at the first fixed point (1D part)
@@ -372,5 +374,116 @@ theorem untilFixedPoint2_spec [DecidableEq α] [Inhabited α] (fuel : Nat) (hist
 example : untilFixedPoint2 [[[1, 0], [0, 1]], [[1, 0], [0, 1]]] 2 = false := by decide
 example : untilFixedPoint2 [[[1, 0], [0, 1]], [[0, 1], [1, 0]]] 2 = true := by decide
 example : untilFixedPoint2 [[[1, 0], [0, 1]]] 1 = true := by decide
+
+end Cpl.C06
+
+
+/-! ## The `timesteps` callable as an arbitrary stateful callable (what the predicate is consulted with)
+
+`evolveDynamicS` / `evolve2dDynamicS` (`Cpl/Model/DynS.lean`, the functions the driver runs) thread a predicate
+state through the consultations in code order. For a predicate whose verdict is a pure function `q` of its
+arguments the result is that of `evolveDynamic q` — so every theorem above applies — and a recording predicate
+sees exactly `(states of this call so far, t = their number)` for `t = 1, …, k+1`, in that order, once each. -/
+
+namespace Cpl.C06
+open Cpl Cpl.Spec
+
+variable {σ π α : Type}
+
+/-- **A stateful predicate with pure verdicts behaves like the pure predicate** (1D): rows and rule state agree. -/
+theorem dynS_eq_dyn [DecidableEq α] [Inhabited α] (fuel : Nat) (hist : List (List α))
+    (pred : SPred π α) (q : List (List α) → Nat → Bool) (hq : ∀ p rows t, (pred p rows t).1 = q rows t)
+    (rule : Rule1 σ α) (r : Nat) (mode : Mode) (s : σ) (p : π) :
+    (evolveDynamicS fuel hist pred rule r mode s p).map (fun e => e.map fun x => (x.1, x.2.1))
+      = evolveDynamic fuel hist q rule r mode s := by
+  unfold evolveDynamicS evolveDynamic
+  cases hl : hist.getLast? with
+  | none => simp [Except.map]
+  | some init =>
+    simp only
+    rw [← DynS.dynLoopS_proj mode rule r pred q hq fuel 1 [init] init Caches.empty s p]
+    cases hd : dynLoopS mode rule r pred fuel 1 [init] init Caches.empty s p with
+    | none => simp [DynS.proj]
+    | some res =>
+      cases res with
+      | error e => simp [DynS.proj, Except.map]
+      | ok x =>
+        obtain ⟨acc, s'', p'⟩ := x
+        simp [DynS.proj, Except.map]
+
+/-- **The predicate is consulted with the states produced so far in this call (starting state first) and `t` equal
+    to their number, for `t = 1, 2, …, k+1`, once each and in that order** — where `k` is the number of steps
+    performed (1D). -/
+theorem dyn_pred_trace [DecidableEq α] [Inhabited α] (fuel : Nat) (hist : List (List α)) (init : List α)
+    (hlast : hist.getLast? = some init) (q : List (List α) → Nat → Bool) (rule : Rule1 σ α) (r : Nat)
+    (mode : Mode) (s s' : σ) (log0 log : List (List (List α) × Nat)) (out : List (List α))
+    (h : evolveDynamicS fuel hist (recPred q) rule r mode s log0 = some (.ok (out, s', log))) :
+    ∃ k, out.length = hist.length + k ∧
+      log = log0 ++ (List.range (k + 1)).map fun i => (callRows mode rule r init s i, i + 1) := by
+  unfold evolveDynamicS at h
+  rw [hlast] at h
+  simp only at h
+  cases hd : dynLoopS mode rule r (recPred q) fuel 1 [init] init Caches.empty s log0 with
+  | none => simp [hd] at h
+  | some res =>
+    cases res with
+    | error e => simp [hd] at h
+    | ok x =>
+      obtain ⟨acc, s'', lg⟩ := x
+      simp only [hd, Option.some.injEq, Except.ok.injEq, Prod.mk.injEq] at h
+      obtain ⟨m, hres, hlog⟩ := DynS.dynLoopS_rec_inv mode rule r q fuel 1 [init] init
+        Caches.empty s log0 acc s'' lg hd
+      refine ⟨m, ?_, ?_⟩
+      · rw [← h.1, hres]
+        simp [fixedLoop_length]
+      · rw [← h.2.2, hlog]
+        simp [callRows, Nat.add_comm 1]
+
+/-- 2D: a stateful predicate with pure verdicts behaves like the pure predicate. -/
+theorem dynS2_eq_dyn2 [DecidableEq α] [Inhabited α] (fuel : Nat) (hist : List (Grid α))
+    (pred : SPred2 π α) (q : List (Grid α) → Nat → Bool) (hq : ∀ p gs t, (pred p gs t).1 = q gs t)
+    (rule : Rule2 σ α) (r : Nat) (nb : NbType) (mode : Mode) (s : σ) (p : π) :
+    (evolve2dDynamicS fuel hist pred rule r nb mode s p).map (fun e => e.map fun x => (x.1, x.2.1))
+      = evolve2dDynamic fuel hist q rule r nb mode s := by
+  unfold evolve2dDynamicS evolve2dDynamic
+  cases hl : hist.getLast? with
+  | none => simp [Except.map]
+  | some init =>
+    simp only
+    rw [← DynS.dynLoopS2_proj mode rule r nb pred q hq fuel 1 [init] init Caches2.empty s p]
+    cases hd : dynLoopS2 mode rule r nb pred fuel 1 [init] init Caches2.empty s p with
+    | none => simp [DynS.proj]
+    | some res =>
+      cases res with
+      | error e => simp [DynS.proj, Except.map]
+      | ok x =>
+        obtain ⟨acc, s'', p'⟩ := x
+        simp [DynS.proj, Except.map]
+
+/-- 2D: the recording predicate sees `(grids of this call so far, t = their number)` for `t = 1 … k+1`. -/
+theorem dyn2_pred_trace [DecidableEq α] [Inhabited α] (fuel : Nat) (hist : List (Grid α)) (init : Grid α)
+    (hlast : hist.getLast? = some init) (q : List (Grid α) → Nat → Bool) (rule : Rule2 σ α) (r : Nat)
+    (nb : NbType) (mode : Mode) (s s' : σ) (log0 log : List (List (Grid α) × Nat)) (out : List (Grid α))
+    (h : evolve2dDynamicS fuel hist (recPred2 q) rule r nb mode s log0 = some (.ok (out, s', log))) :
+    ∃ k, out.length = hist.length + k ∧
+      log = log0 ++ (List.range (k + 1)).map fun i => (callGrids mode rule r nb init s i, i + 1) := by
+  unfold evolve2dDynamicS at h
+  rw [hlast] at h
+  simp only at h
+  cases hd : dynLoopS2 mode rule r nb (recPred2 q) fuel 1 [init] init Caches2.empty s log0 with
+  | none => simp [hd] at h
+  | some res =>
+    cases res with
+    | error e => simp [hd] at h
+    | ok x =>
+      obtain ⟨acc, s'', lg⟩ := x
+      simp only [hd, Option.some.injEq, Except.ok.injEq, Prod.mk.injEq] at h
+      obtain ⟨m, hres, hlog⟩ := DynS.dynLoopS2_rec_inv mode rule r nb q fuel 1 [init] init
+        Caches2.empty s log0 acc s'' lg hd
+      refine ⟨m, ?_, ?_⟩
+      · rw [← h.1, hres]
+        simp [Dyn2D.fixedLoop2_length]
+      · rw [← h.2.2, hlog]
+        simp [callGrids, Nat.add_comm 1]
 
 end Cpl.C06
